@@ -44,12 +44,44 @@ func checkNoPostLoopOverride(c *Ctx, r *Report, infos map[string]*optInfo) {
 				}
 			}
 		}
-		if len(hdrs) == 0 {
-			r.OK(rule, construct, c.Pos(fn.Pos()), "no apply loop in this constructor (it forwards the list)")
-			continue
-		}
 		var probs []string
 		pos := c.Pos(fn.Pos())
+		// (a) stores into objects that came configured out of another constructor
+		allInstrs(fn, func(in ssa.Instruction) {
+			f, base, _, ok := fieldStore(in)
+			if !ok {
+				return
+			}
+			k := typeShort(base.Type()) + "." + f.Name()
+			opts, isSet := settable[k]
+			if !isSet {
+				return
+			}
+			if _, fresh := base.(*ssa.Alloc); fresh {
+				return // the constructor's own object: covered by (b)
+			}
+			if ct[0] == "driver/netconf" && k == "channel.Channel.PromptPattern" {
+				return // named exception, see below
+			}
+			guarded := guardedBy(in, func(cond ssa.Value, truth bool) bool {
+				x, nonNilOnTrue, isNil := nilCheck(cond)
+				return isNil && isFieldLoadOf(x, f) && truth != nonNilOnTrue
+			})
+			if guarded {
+				return
+			}
+			sort.Strings(opts)
+			probs = append(probs, fmt.Sprintf("%s of an object built (and configured by the options) elsewhere is overwritten at %s: whatever %v set -- e.g. an explicit value that happens to equal a default -- is lost for this constructor only", k, c.Pos(in.Pos()), opts))
+			pos = c.Pos(in.Pos())
+		})
+		if len(hdrs) == 0 {
+			if len(probs) > 0 {
+				r.Bad(rule, construct, pos, probs[0])
+			} else {
+				r.OK(rule, construct, c.Pos(fn.Pos()), "no apply loop in this constructor (it forwards the list) and no overwrite of configured objects")
+			}
+			continue
+		}
 		for _, h := range hdrs {
 			loop := loopBlocks(h)
 			// instructions reachable after the loop was left through exhaustion
